@@ -105,4 +105,6 @@ def run(prop, tier, seed, replay=None):
                 chk.inconclusive_because("monitor observed no '%s' events" % k)
         if ev == 0:
             chk.inconclusive_because("no evaluations")
+        if prop != "C01" and res.stat("zones_load_failed"):
+            chk.inconclusive_because("%d corpus zones failed to load (C01 reports that); this property was not observed on them" % res.stat("zones_load_failed"))
     return chk.finish()
